@@ -23,7 +23,7 @@ COMPONENTS = sb.COMPONENTS
 ASSUMPTIONS = ['REJECT scanners and user-owned yy_scan_buffer buffers may stop with the documented fatal error when the token does not fit (legitimacy bound of DESIGN 5.4)',
                'the read(2) input path (-Cr) is not driven: the simulated streams have no file descriptor']
 EXPECTED_PROBES = ['refill-with-partial-token', 'token-longer-than-buffer', 'eof-with-pending-text', 'legit-reject-overflow']
-CLASSES = {'delivery', 'overread', 'overread-after-nul', 'fatal', 'hang', 'premature'}
+CLASSES = {'delivery', 'delivery-abort', 'overread', 'overread-after-nul', 'fatal', 'hang', 'premature'}
 BUF_SIZES = [1, 2, 3, 4, 5, 6, 7, 8, 9, 15, 16, 17, 63, 16384]
 
 
@@ -108,8 +108,18 @@ def compare(sc, plan, rb, rv):
             i = next(i for i in range(n) if i >= len(tb) or tv[i] != tb[i])
             viols.append(model.Viol('delivery', -1, 'before the fatal error: item %d is %s, baseline delivery gives %s' % (i, tv[i], tb[i] if i < len(tb) else None)))
         return viols, mv
-    if sb.status_class(rv) or sb.status_class(rb):
-        return viols, mv    # sanitizer / crash: C13's business
+    if sb.status_class(rb):
+        return viols, mv    # the baseline itself ended abnormally: C13's business
+    if sb.status_class(rv) in ('sanitizer', 'crash'):
+        # the same bytes scanned from one in-memory buffer gave a complete token stream; under this
+        # delivery the scanner did not get through (whatever else it is, the stream depends on the delivery)
+        n = len(tv)
+        i = next((i for i in range(n) if i >= len(tb) or tv[i] != tb[i]), n)
+        viols.append(model.Viol('delivery-abort', -1, 'this delivery ended with %s after %d items (first difference at item %d); the baseline (one in-memory buffer) completed with %d items: %s' % (
+            rv.status, n, i, len(tb), sb.san_summary(rv.stderr)[:200] if sb.status_class(rv) == 'sanitizer' else ''))) 
+        return viols, mv
+    if sb.status_class(rv):
+        return viols, mv
     if any(ev['k'] == 'F' for ev in rb.events):
         # the baseline itself stopped (e.g. push-back into an exactly-sized
         # in-memory buffer): only the common prefix is comparable
